@@ -306,6 +306,15 @@ def run(rep, prog, tier):
     check_wrappers(rep, prog, fns, all_pn)
     check_siblings(rep, prog, fns)
     check_zero_duration(rep, prog)
+    # nested special cases run through different drivers (constant-parameter Python path vs the compiled time-dependent path): they
+    # agree only if the C coefficient functions compute the same real-valued formulas (C truncates integer quotients, 1/2 == 0)
+    from rules.c02 import rule_c_intdiv
+    from sa.cfront import CProgram
+    rule_c_intdiv(rep, CProgram())
+    # admixture models reduce to their split siblings (f -> 0, f -> 1, zero duration) only if the shared deposition helper keeps the
+    # source density: the interpolation weights and the end-of-grid spacings of PhiManip._admixture_intermediates (rule shared with C06)
+    from rules import c06
+    c06.check_deposition(rep, prog, prog.mod(c06.PM))
     rep.floor("R-ROLE", 700)
     rep.floor('R-IDX', 300)
     rep.floor('R-DIM', 80)
